@@ -5,6 +5,7 @@
 pub mod chk;
 pub mod gen;
 pub mod hook;
+pub mod iters;
 pub mod q;
 pub mod step;
 pub mod sym;
